@@ -213,6 +213,46 @@ def check_formats_one_decoder():
     return None
 
 
+def check_frame_timestamps():
+    """C07: the frames of one fast-packet message decode to the same message whatever the timestamps their format attaches:
+    frames several seconds apart (a slow bus), canboat 'Z' timestamps, and Yacht Devices time-of-day stamps that cross midnight
+    in the middle of the message."""
+    from nmea2000.decoder import NMEA2000Decoder
+    from contracts.wire_replay import build_id
+    frames = [bytes(int(x, 16) for x in f.split(',')[6:]) for f in FAST]
+    n = frames[0][1]
+    payload = (frames[0][2:] + b''.join(fr[1:] for fr in frames[1:]))[:n]
+    head = FAST[0].split(',')[1:5]
+    whole = FAST[0].split(',')[0] + ',' + ','.join(head) + f",{n}," + ','.join(f'{b:02x}' for b in payload)
+    ref = sig(NMEA2000Decoder().decode_basic_string(whole, True))
+    if ref is None:
+        return {'observed': 'the pre-assembled reference message does not decode', 'frame': whole}
+    prio, pgn, src, dst = (int(x) for x in head)
+    cid = build_id(pgn, src, dst, prio)
+    deliveries = {}
+    for label, stamps in (('canboat, 7 s between frames', [f'2022-09-28-11:36:{10 + 7 * i:02d}.000' for i in range(7)]),
+                          ('canboat Z stamps, 7 s between frames', [f'2022-09-28T11:36:{10 + 7 * i:02d}.000Z' for i in range(7)]),
+                          ('canboat, frames out of clock order', [f'2022-09-28-11:36:{50 - 7 * i:02d}.000' for i in range(7)])):
+        deliveries[label] = [('basic', ','.join([stamps[i]] + FAST[i].split(',')[1:])) for i in range(7)]
+    for label, stamps in (('yacht devices across midnight', ['23:59:59.982', '23:59:59.988', '23:59:59.994', '00:00:00.000', '00:00:00.006', '00:00:00.012', '00:00:00.018']),
+                          ('yacht devices, 9 s between frames', [f'10:00:{9 * i:02d}.000' for i in range(7)])):
+        deliveries[label] = [('yd', f'{stamps[i]} R {cid:08X} ' + ' '.join(f'{b:02X}' for b in frames[i])) for i in range(7)]
+    for label, steps in deliveries.items():
+        dec = NMEA2000Decoder()
+        got = []
+        for kind, ln in steps:
+            try:
+                got.append(sig(dec.decode_basic_string(ln, False) if kind == 'basic' else dec.decode_yacht_devices_string(ln)))
+            except Exception as e:  # noqa
+                got.append(('raise', type(e).__name__))
+        want = [None] * 6 + [ref]
+        if got != want:
+            k = next(i for i, (a, b) in enumerate(zip(got, want)) if a != b)
+            return {'delivery': label, 'step': k, 'input': steps[k][1], 'observed': str(got[k])[:200], 'expected': str(want[k])[:200],
+                    'history': 'the seven frames of one PGN 129029 message, only their timestamps differ from the reference delivery'}
+    return None
+
+
 def check_reclaim_same_device():
     """C11: a device that claims again with a changed NAME (only the device instance byte differs) is known by the NEW identity
     from then on - the identity is that of the most recent claim, not of the first one."""
@@ -288,7 +328,7 @@ def check_dump():
     return None
 
 
-BATTERY = {'C10': [check_filters, check_filtered_fast_packets], 'C11': [check_identity, check_filters, check_reclaim_same_device], 'C15': [check_dump], 'C16': [check_filters, check_identity, check_filtered_fast_packets, check_ignored_then_supported, check_formats_one_decoder], 'C08': [], 'C17': [check_hash_presence], 'C07': [check_formats_one_decoder], 'C03': [check_formats_one_decoder]}
+BATTERY = {'C10': [check_filters, check_filtered_fast_packets], 'C11': [check_identity, check_filters, check_reclaim_same_device], 'C15': [check_dump], 'C16': [check_filters, check_identity, check_filtered_fast_packets, check_ignored_then_supported, check_formats_one_decoder], 'C08': [], 'C17': [check_hash_presence], 'C07': [check_formats_one_decoder, check_frame_timestamps], 'C03': [check_formats_one_decoder], 'C05': [check_identity, check_reclaim_same_device]}
 
 
 _MEMO = {}
